@@ -617,6 +617,23 @@ def lifecycle_train_cases(tier, seed):
                                "events": ev[:pos] + [[how]] + ev[pos:], "recovery_op": ("get", "set_many", "get_many")[(sum(gaps) + n + pos) % 3]}
 
 
+def soak_cases(tier, seed):
+    """a client that has lived through hundreds of outages: long event sequences (thousands of operations, failures, recoveries
+    and clock advances), on both back-ends; every rule is judged at every step as in the short histories"""
+    n = 1500 if tier == "quick" else 15000
+    pool = [["op", "get", 0], ["op", "get", 1], ["op", "set", 0], ["op", "set_many", 0], ["op", "get_many", 1], ["op", "get", 2], ["adv", 0.5], ["adv", 1.5], ["adv", 61],
+            ["fail", 0, "refused"], ["heal", 0], ["fail", 1, "timeout"], ["heal", 1], ["op", "incr", 0], ["op", "delete", 1], ["adv", 1.5], ["op", "get", 0], ["heal", 0]]
+    for ra in (0, 1, 2):
+        for ie in (False, True):
+            for backend in ("scripted", "real"):
+                x = (seed * 4099 + ra * 17 + ie * 5 + len(backend)) & 0x7FFFFFFF
+                ev = []
+                for i in range(n if backend == "scripted" else n // 4):
+                    x = (x * 1103515245 + 12345) & 0x7FFFFFFF
+                    ev.append(pool[(x >> 16) % len(pool)])
+                yield {"servers": 3, "retry_attempts": ra, "ignore_exc": ie, "backend": backend, "recovery_step": 7, "events": ev, "aws": bool(ra == 1 and backend == "real")}
+
+
 def minimise(case, still_fails):
     ev = ddmin_list(case["events"], lambda e: still_fails(dict(case, events=e)))
     return dict(case, events=ev)
@@ -738,6 +755,7 @@ def check_two_users(case):
 
 PARTS = [
     Part("two-users-at-once", "enum", check_two_users, cases=two_users_cases, exhaustive=True),
+    Part("long-lives", "enum", check, cases=soak_cases, shards={"quick": 12, "thorough": 12}, minimise=minimise),
     Part("exhaustive-depth", "enum", check, cases=exhaustive_cases, exhaustive=True, minimise=minimise, distinct_by_construction=True),
     Part("probe-trains", "enum", check, cases=probe_train_cases, exhaustive=True, minimise=minimise, distinct_by_construction=True),
     Part("real-probe-trains", "enum", check, cases=real_train_cases, exhaustive=True, minimise=minimise, distinct_by_construction=True),
